@@ -85,7 +85,8 @@ class Gen:
             b = r.below(2)
             return ("true" if b else "false"), "(const (b %d))" % b
         if ty == "text":
-            s = r.choice(["", "a", "b", "ab", "abc", "B", "x y", "é", "abcdefghijklmnop", "a'b"])
+            s = r.choice(["", "a", "b", "ab", "abc", "B", "x y", "é", "abcdefghijklmnop", "a'b", "twelve_chars",
+                          "shared_prefix_A", "shared_prefix_", "elevenchars", "thirteenchars"])
             return "'%s'" % s.replace("'", "''"), "(const %s)" % sx_value("S" + s)
         raise ValueError(ty)
 
@@ -631,13 +632,17 @@ class Gen:
                 classes.add("cte_materialized")
         q = self.select([], depth, classes=classes, top=True)
         if self.o["setops"] and r.chance(15):
-            q2 = self.select([], depth - 1, want=q.types, classes=classes, top=True)
-            allf = r.chance(50)
-            classes.add("union")
-            q = Q("%s UNION %s%s" % (q.sql, "ALL " if allf else "", q2.sql),
-                  "(union %d %s %s)" % (1 if allf else 0, q.sx, q2.sx), q.types, q.names, classes)
+            # chains are left associative: a UNION b UNION ALL c = (a UNION b) UNION ALL c
+            for _ in range(1 if r.chance(60) else 2):
+                q2 = self.select([], depth - 1, want=q.types, classes=classes, top=True)
+                allf = r.chance(50)
+                classes.add("union")
+                q = Q("%s UNION %s%s" % (q.sql, "ALL " if allf else "", q2.sql),
+                      "(union %d %s %s)" % (1 if allf else 0, q.sx, q2.sx), q.types, q.names, classes)
+            if "UNION" in q.sql and q.sql.count(" UNION ") >= 2:
+                classes.add("union_chain")
         ordered = False
-        if self.o["order"] and r.chance(35) and "union" not in classes:
+        if self.o["order"] and r.chance(self.o.get("order_chance", 35)) and "union" not in classes:
             nk = 1 + r.below(min(2, len(q.types)))
             idxs = r.shuffle(list(range(len(q.types))))[:nk]
             lim, off = None, 0
@@ -673,8 +678,18 @@ class Gen:
         return q
 
 
-def make_db(rng, ntables=3, max_rows=30):
+TEXT_SHORT = ["", "a", "a", "b", "ab", "abc", "B", "é", "abcdefghijklmnop", "x y", "a'b"]
+# lengths around the 12-byte inline threshold of string views, and long values that share their first 12+ bytes
+# (sort keys carry a 12-byte prefix; ties on it are resolved by comparing the heap strings)
+TEXT_EDGE = ["elevenchars", "twelve_chars", "thirteenchars", "twelve_chars", "twelve_charz", "shared_prefix_A", "shared_prefix_B",
+             "shared_prefix_", "shared_prefix_AA", "élevenchar", "", "a", "b"]
+
+
+def make_db(rng, ntables=3, max_rows=30, edge_text=None):
     """small tables with duplicate/skewed keys, NULLs anywhere, an empty table now and then"""
+    if edge_text is None:
+        edge_text = rng.chance(30)
+    tdom = TEXT_EDGE if edge_text else TEXT_SHORT
     tables = []
     for ti in range(ntables):
         ncols = 2 + rng.below(3)
@@ -694,7 +709,7 @@ def make_db(rng, ntables=3, max_rows=30):
                 elif t == "bool":
                     row.append("B%d" % rng.below(2))
                 else:
-                    row.append("S" + rng.choice(["", "a", "a", "b", "ab", "abc", "B", "é", "abcdefghijklmnop", "x y", "a'b"]))
+                    row.append("S" + rng.choice(tdom))
             rows.append(row)
         tables.append(("t%d" % ti, cols, rows))
     return tables
